@@ -7,7 +7,7 @@ From HpoV Require Import Model.Base Model.Group Spec.Sets.
 (* case = (kind, xs, ys)
    kind 0: insertion history xs into an empty group, probes ys
    kind 1: two groups from xs / ys: | & + and | id
-   kind 2: the constructors (Vec<HpoTermId>, Vec<u32>, HashSet, FromIterator) *)
+   kind 2: the constructors (Vec<HpoTermId>, Vec<u32>, HashSet, FromIterator<HpoTermId>, FromIterator<HpoTerm>) *)
 Definition case_C12 : Type := N * list N * list N.
 Definition obs_C12 : Type := list (list N).
 
@@ -38,7 +38,7 @@ Definition run_C12 (c : case_C12) : obs_C12 :=
         g_plus a p1; g_bitor_id a p1; g_plus a p2; g_bitor_id a p2;
         [g_len (g_union a b); g_len (g_inter a b); boolN (g_is_empty (g_inter a b))] ]
   | _ =>
-      let a := g_from_list xs in [a; a; a; a]
+      let a := g_from_list xs in [a; a; a; a; a]
   end.
 
 (* ---------------- the property, executable ---------------- *)
@@ -69,8 +69,8 @@ Definition spec_C12 (c : case_C12) (o : obs_C12) : bool :=
       && (lu =? Nlen (set_union xs ys)) && (li =? Nlen (set_inter xs ys))
       && (ie =? boolN (Nlen (set_inter xs ys) =? 0))
   | 0, _ | 1, _ => false
-  | _, [a; b; c'; d] =>
+  | _, [a; b; c'; d; e] =>
       list_eqb a (set_of xs) && list_eqb b (set_of xs)
-      && list_eqb c' (set_of xs) && list_eqb d (set_of xs)
+      && list_eqb c' (set_of xs) && list_eqb d (set_of xs) && list_eqb e (set_of xs)
   | _, _ => false
   end.
